@@ -269,6 +269,20 @@ pub fn conv_case(cx: &mut Ctx, n: u64, case: &Value) {
     let tri = Triangle::new(p, q, r);
     chk("Triangle::to_polygon", cs(tri.to_polygon().exterior()), &case["tri_to_polygon"]);
     chk("Polygon::from(Triangle)", cs(Polygon::from(tri).exterior()), &case["tri_to_polygon"]);
+    // triangles stored in the order given (tuple constructor, From<[_; 3]>): every conversion keeps the stored order
+    for (what, t, key) in [("Triangle(p, q, r)", Triangle(p, q, r), "tri_raw"), ("Triangle(p, r, q)", Triangle(p, r, q), "tri_raw_flipped"),
+                           ("Triangle::from([p, q, r])", Triangle::from([p, q, r]), "tri_raw"), ("Triangle::from([p, r, q])", Triangle::from([p, r, q]), "tri_raw_flipped")] {
+        chk(&format!("{what}.to_polygon"), cs(t.to_polygon().exterior()), &case[key]);
+        chk(&format!("Polygon::from({what})"), cs(Polygon::from(t).exterior()), &case[key]);
+        let into: Polygon<f64> = t.into();
+        chk(&format!("{what}.into::<Polygon>"), cs(into.exterior()), &case[key]);
+        chk(&format!("MultiPolygon::from({what})"), cs(geo::MultiPolygon::from(t).0[0].exterior()), &case[key]);
+        let back: Triangle<f64> = Triangle::try_from(Geometry::from(t)).unwrap();
+        chk(&format!("Geometry<->{what}"), cs(back.to_polygon().exterior()), &case[key]);
+        chk(&format!("{what}.to_array / to_lines"), json!([t.to_array().iter().map(|c| json!([c.x as i64, c.y as i64])).chain(std::iter::once(json!([t.0.x as i64, t.0.y as i64]))).collect::<Vec<_>>(),
+                                                          t.to_lines().iter().map(|l| json!([l.start.x as i64, l.start.y as i64])).chain(std::iter::once(json!([t.0.x as i64, t.0.y as i64]))).collect::<Vec<_>>()]),
+            &json!([case[key], case[key]]));
+    }
     let line = Line::new(p, q);
     chk("LineString::from(Line)", cs(&LineString::from(line)), &case["line_to_linestring"]);
     // Geometry enum round trips
